@@ -248,8 +248,9 @@ def run(ctx):
     depth_rule(ctx)
 
     # ---- panic inventory
-    used = {}
     nsites = 0
+    matcher = ReviewedMatcher('C19', PANIC_REVIEWED, {short_fn(fn_label(b)) for b in scope})
+    ctx.panic_matcher = matcher
     for b in scope:
         ctx.touched(b)
         fl = fn_label(b)
@@ -257,10 +258,7 @@ def run(ctx):
             nsites += 1
             why = auto_accept(b, kind, bb)
             if why is None:
-                key = (short_fn(fl), kind)
-                if key in PANIC_REVIEWED and used.get(key, 0) < PANIC_REVIEWED[key][0]:
-                    used[key] = used.get(key, 0) + 1
-                    why = 'reviewed: ' + PANIC_REVIEWED[key][1]
+                why = matcher.match(b, short_fn(fl), kind, bb)
             ordn = sum(1 for k2, bb2, _, _ in panic_sites(b) if k2 == kind and bb2 < bb)
             ctx.ob('PANIC', '%s/%s#%d' % (fl, kind, ordn), why is not None, loc_,
                    ('panic-capable construct `%s` (%s): %s' % (kind, txt[:60], why)) if why else
@@ -306,6 +304,31 @@ def run(ctx):
                'node looked up with .get(key.idx) and a missing node returns Err: %s' % ok)
 
 
+def json_guard_fns(f, scope):
+    """the two guards of the JSON renderer, found by what they are rather than by name: inherent methods of
+    SerializeSchema that read the per-node traversal table; the one returning Result<Guard, _> takes the cycle guard, the
+    one returning bool is the written-as-reference test; the guard's release is the by-value method of the Guard type"""
+    pre = 'schema::safe::serialize::SerializeSchema::'
+    cands = []
+    for b in scope:
+        if b.j['kind'] == 'closure' or not fn_label(b).startswith(pre) or b.j.get('impl_trait'):
+            continue
+        touches = mentions_field(b, 'node_traversal_state')
+        if touches:
+            cands.append(b)
+    enter = [b for b in cands if (b.local_ty(0) or '').startswith('core::result::Result<')]
+    test = [b for b in cands if b.local_ty(0) == 'bool']
+    enter = enter[0] if len(enter) == 1 else None
+    test = test[0] if len(test) == 1 else None
+    release = None
+    if enter is not None:
+        gty = enter.local_ty(0)[len('core::result::Result<'):].split(',')[0].split('<')[0].strip()
+        rel = [b for b in scope if b.j['kind'] != 'closure' and b.nargs == 1 and b.local_ty(0) == '()' and
+               (b.local_ty(1) or '').split('<')[0] == gty and not b.j.get('impl_trait')]
+        release = rel[0] if len(rel) == 1 else None
+    return enter, test, release
+
+
 def json_recursion(ctx, with_budget=False):
     """serde-mediated recursion of the JSON rendering: every child rendering is cycle-guarded"""
     f = ctx.f
@@ -319,6 +342,8 @@ def json_recursion(ctx, with_budget=False):
     else:
         kb = keyimpl[0]
         ctx.touched(kb)
+        g_enter, g_test, g_release = json_guard_fns(f, scope)
+        guard_ids = {g.id for g in (g_enter, g_test) if g is not None}
         n = 0
         for bb, t in sorted(kb.calls()):
             c = strip_generics(cname(t))
@@ -330,14 +355,14 @@ def json_recursion(ctx, with_budget=False):
                     for d, si, taken in dominating_switches(kb, bb):
                         o = origin(kb, si['place']) if si.get('kind') == 'enum' else origin(kb, si['op'])
                         for a in o.atoms:
-                            if a[0] == 'call' and (a[1].endswith('::no_cycle_guard') or a[1].endswith('::should_write_as_ref')):
-                                ok, why = True, 'dominated by the result of %s' % strip_generics(a[1]).rsplit('::', 1)[1]
+                            if a[0] == 'call' and a[1] in guard_ids:
+                                ok, why = True, 'dominated by the result of %s' % ('the cycle guard' if g_enter is not None and a[1] == g_enter.id else 'the written-as-reference test')
                 ctx.ob('RECGUARD-T', 'json/edge#%d' % n, ok, short_loc(t.get('span')),
                        ('child rendering is %s' % why) if ok else 'child rendering with no cycle guard')
         ctx.floor('RECGUARD-T', 'json child renderings', n, 4)
         # the guards themselves test the per-node table and error / short-circuit
-        for gname in ('no_cycle_guard', 'should_write_as_ref'):
-            gb = [b for b in scope if fn_label(b) == 'schema::safe::serialize::SerializeSchema::' + gname]
+        for gname, gfn in (('no_cycle_guard', g_enter), ('should_write_as_ref', g_test)):
+            gb = [gfn] if gfn is not None else []
             okg = False
             if gb:
                 g = gb[0]
@@ -457,9 +482,10 @@ def json_guard_semantics(ctx, f, kb, scope):
     - no_cycle_guard errs when the node is met again with no new name written in between (prev == current included)
     - should_write_as_ref separates the initial table value (never written) from every later generation
     - every guard taken by an unnamed container is released once its children are rendered"""
+    g_enter, g_test, g_release = json_guard_fns(f, scope)
+
     def guard(name):
-        gb = [b for b in scope if fn_label(b) == 'schema::safe::serialize::SerializeSchema::' + name]
-        return gb[0] if gb else None
+        return {'no_cycle_guard': g_enter, 'should_write_as_ref': g_test}[name]
     g = guard('no_cycle_guard')
     ok, det = False, 'no_cycle_guard not found'
     if g is not None:
@@ -529,8 +555,8 @@ def json_guard_semantics(ctx, f, kb, scope):
     ctx.ob('RECGUARD-T', 'json/should_write_as_ref-threshold', ok, short_loc(g.span) if g else None, det)
 
     # release
-    gcalls = [(bb, t) for bb, t in kb.calls() if strip_generics(cname(t)).endswith('SerializeSchema::no_cycle_guard')]
-    rel = [bb for bb, t in kb.calls() if strip_generics(cname(t)).endswith('NoCycleGuard::release')]
+    gcalls = [(bb, t) for bb, t in kb.calls() if g_enter is not None and (t.get('resolved') or t.get('callee')) == g_enter.id]
+    rel = [bb for bb, t in kb.calls() if g_release is not None and (t.get('resolved') or t.get('callee')) == g_release.id]
     rets = [bb for bb in kb.live_blocks() if kb.term(bb)['k'] == 'return']
     n = 0
     for gbb, gt in gcalls:
